@@ -253,12 +253,13 @@ def check(prog: Program, tier: str) -> Result:
     _r19_5(prog, res)
     _r19_6(prog, res)
     _r19_7(prog, res)
+    _r19_8(prog, res)
     # a renamed binding is rewritten as ONE transaction (R19.3); that only keeps definition and uses together if the
     # scheduler applies a transaction wholly or not at all - decided by the C10 check, adopted here
     from . import c10 as _c10
     res.adopt(_c10.check(prog, tier), {"R10.1", "R10.3", "R10.6"}, "R19.3",
               "a rename is consistent only if its transaction is applied as a whole or not at all")
-    res.floors.update({"R19.1": 8, "R19.2": 4, "R19.3": 2, "R19.4": 1, "R19.5": 1, "R19.6": 1, "R19.7": 2})
+    res.floors.update({"R19.1": 8, "R19.2": 4, "R19.3": 2, "R19.4": 1, "R19.5": 1, "R19.6": 1, "R19.7": 2, "R19.8": 6})
     res.analysed.update({"named_node_constructions_reaching_output": n_ctor, "guarded_name_generators": sorted(f"{a}.{b}" for a, b in gens)})
     return res
 
@@ -733,6 +734,34 @@ def _within(n, container) -> bool:
     return False
 
 
+BINDER_KINDS = {          # every way a name gets bound in a scope, and the field that holds it (reference table: Python's grammar)
+    "assignment / loop / with / walrus targets": ("Name", "ctx=ast.Store"),
+    "function definitions": ("FunctionDef", ".name"),
+    "class definitions": ("ClassDef", ".name"),
+    "parameters": ("arg", ".arg"),
+    "except .. as name": ("ExceptHandler", ".name"),
+    "match captures (case x / case [*rest])": ("MatchAs", ".name"),
+    "match star captures": ("MatchStar", ".name"),
+    "match mapping rest (case {**rest})": ("MatchMapping", ".rest"),
+}
+
+
+def _r19_8(prog: Program, res: Result) -> None:
+    """The names a new name is tested against must be ALL names bound in the module: besides stores, definitions and parameters
+    also `except E as name`, the captures of match patterns and `**rest` - these are plain strings in the tree, not Name nodes.
+    `err_msg` was free for a renaming although `except ValueError as err_msg` existed in the same function: two variables
+    merged.  Table check of tracing.get_defined_names against the binder kinds of the grammar."""
+    fn = prog.funcs.get(("tracing", "get_defined_names"))
+    if fn is None:
+        raise AnalysisError("anchor tracing.get_defined_names not found")
+    txt = norm(fn.node)
+    for what, (cls, field) in BINDER_KINDS.items():
+        ok = f"ast.{cls}" in txt and (field in txt or field.replace("ctx=ast.Store", "Store") in txt)
+        res.decide(ok, "R19.8", fn.loc(), fn.fq, f"defined names include {what}",
+                   f"ast.{cls}{field if field.startswith('.') else ''} is collected" if ok else
+                   f"names bound through {what} (ast.{cls}) are not among the defined names: a variable can be renamed to, or a binder synthesised with, a name that is taken")
+
+
 def _r19_7(prog: Program, res: Result) -> None:
     """Two small agreement rules around 'which references belong to the definition that is renamed or moved'.
     (a) KIND of name: a set that is consulted with the name of a definition (`funcdef.name in S`) to decide whether its
@@ -782,6 +811,7 @@ def _r19_7(prog: Program, res: Result) -> None:
 from ..selftest import Variant  # noqa: E402
 
 VARIANTS: List[Variant] = [
+    Variant("except-as-names-not-defined-names", "FIRE", "tracing", "        | {node.name for node in core.walk(root, ast.ExceptHandler(name=str))}\n", "", "R19.8"),
     Variant("blacklist-of-dotted-import-names", "FIRE", "fixes",
             "    return (\n        tracing.get_import_bound_names(ast_tree)\n        | constants.BUILTIN_FUNCTIONS", "    return (\n        tracing.get_imported_names(ast_tree)\n        | constants.BUILTIN_FUNCTIONS", "R19.2"),
     Variant("bound-import-names-computed-in-place", "SILENT", "fixes",
